@@ -87,7 +87,7 @@ template <size_t CAP> static int stress(int P, int C, int closer, int N, uint64_
     std::atomic<int> producers_left{P};
     std::atomic<bool> done{false};
     std::vector<std::thread> th;
-    std::thread dog([&] { for (int i = 0; i < 600 && !done.load(); ++i) std::this_thread::sleep_for(milliseconds(50));
+    std::thread dog([&] { for (int i = 0; i < 200 && !done.load(); ++i) std::this_thread::sleep_for(milliseconds(50));   // 10 s watchdog
         if (!done.load()) { std::printf("HANG events=%zu\n", g_n.load()); std::fflush(stdout); _exit(3); } });
     for (int p = 0; p < P; ++p)
         th.emplace_back([&, p] {
